@@ -7,6 +7,7 @@ import (
 	"fmt"
 	"os"
 	"path/filepath"
+	"runtime"
 	"sort"
 	"strings"
 	"sync"
@@ -25,7 +26,11 @@ const (
 	msgSuccess = "C18-SUCCESS-MESSAGE"
 	msgFailure = "C18-FAILURE-MESSAGE"
 	readyLine  = "O-ready"
-	hangGuard  = 60 * time.Second // only catches hangs; expiry is an ENGINE-ERROR, never a verdict
+	// hangGuard only catches hangs; expiry is an ENGINE-ERROR, never a verdict. Generous because the machine is shared: a
+	// run that is merely slow must complete (its oracle does not depend on time). After maxHangs expiries the real-process
+	// half stops (exhaustive=false) instead of waiting 3 minutes for each of the remaining cases.
+	hangGuard = 180 * time.Second
+	maxHangs  = 6
 )
 
 var extraEnv = []string{"C18_EXTRA=some value with spaces", "C18_SECOND=2"}
@@ -39,8 +44,10 @@ type realCase struct {
 	Cancel string      `json:"cancel,omitempty"`     // "" | ctx-cancel | ctx-deadline | method-cancel
 }
 
-func (c realCase) withEnv() bool      { return strings.HasSuffix(c.API, "-env") }
-func (c realCase) withMessages() bool { return strings.HasPrefix(c.API, "execute") || c.API == "new-execute" }
+func (c realCase) withEnv() bool { return strings.HasSuffix(c.API, "-env") }
+func (c realCase) withMessages() bool {
+	return strings.HasPrefix(c.API, "execute") || c.API == "new-execute"
+}
 
 // expected computes what the child writes to each stream (the reference; the child does the same independently).
 func (c realCase) expected() (out, errb []byte) {
@@ -166,7 +173,7 @@ func evalRealX(c realCase) (vs []viol, engineErr string, outcome string) {
 	case <-done:
 	case <-guard.C:
 		cancelParent()
-		return nil, fmt.Sprintf("hang guard (%v) expired: %s %s did not return", hangGuard, c.API, c.Family), ""
+		return nil, fmt.Sprintf("hang guard (%v) expired: %s %s did not return%s", hangGuard, c.API, c.Family, stacksOnce()), ""
 	}
 	outcome = errClass(runErr)
 	events := rec.snapshot()
@@ -473,25 +480,28 @@ func realCases(thorough bool) ([]realCase, realBound) {
 }
 
 type realResult struct {
-	Runs          int64            `json:"runs"`
-	PerFamily     map[string]int64 `json:"runs_per_family"`
-	Violating     int64            `json:"violating_runs"`
-	ErrorOutcomes int              `json:"distinct_returned_errors"`
-	ErrorSamples  []string         `json:"returned_errors_sample"`
-	Bound         realBound        `json:"-"`
-	Exhaustive    bool             `json:"exhaustive"`
-	Samples       []any            `json:"-"`
+	Runs      int64            `json:"runs"`
+	PerFamily map[string]int64 `json:"runs_per_family"`
+	// sum of the durations of the runs (they execute in parallel): informative, not an oracle
+	SecondsPerFamily map[string]float64 `json:"summed_run_seconds_per_family"`
+	Violating        int64              `json:"violating_runs"`
+	Skipped          int64              `json:"cases_not_run,omitempty"`
+	ErrorOutcomes    int                `json:"distinct_returned_errors"`
+	ErrorSamples     []string           `json:"returned_errors_sample"`
+	Bound            realBound          `json:"-"`
+	Exhaustive       bool               `json:"exhaustive"`
+	Samples          []any              `json:"-"`
 }
 
 func runReal(rep *ev.Reporter, thorough bool) realResult {
 	cases, bound := realCases(thorough)
-	res := realResult{PerFamily: map[string]int64{}, Bound: bound, Exhaustive: true}
+	res := realResult{PerFamily: map[string]int64{}, SecondsPerFamily: map[string]float64{}, Bound: bound, Exhaustive: true}
 	if _, err := os.Stat(childPath()); err != nil {
 		rep.EngineError("helper child missing (%v): run through ./vcheck, which executes checks/c18/prebuild.sh", err)
 		res.Exhaustive = false
 		return res
 	}
-	var next, violating atomic.Int64
+	var next, violating, hangs, skipped atomic.Int64
 	var mu sync.Mutex
 	outcomes := map[string]struct{}{}
 	var wg sync.WaitGroup
@@ -504,15 +514,24 @@ func runReal(rep *ev.Reporter, thorough bool) realResult {
 				if i >= len(cases) {
 					return
 				}
+				if hangs.Load() >= maxHangs {
+					skipped.Add(1)
+					continue
+				}
 				c := cases[i]
+				began := time.Now()
 				vs, engineErr, outcome := evalRealX(c)
 				mu.Lock()
 				res.Runs++
 				res.PerFamily[c.Family]++
+				res.SecondsPerFamily[c.Family] += time.Since(began).Seconds()
 				if outcome != "" {
 					outcomes[outcome] = struct{}{}
 				}
 				mu.Unlock()
+				if strings.HasPrefix(engineErr, "hang guard") {
+					hangs.Add(1)
+				}
 				if engineErr != "" {
 					rep.EngineError("real case %s/%s %v: %s", c.Family, c.API, script.Args(c.Ops), engineErr)
 					continue
@@ -528,6 +547,11 @@ func runReal(rep *ev.Reporter, thorough bool) realResult {
 	}
 	wg.Wait()
 	res.Violating = violating.Load()
+	if n := skipped.Load(); n > 0 {
+		res.Exhaustive = false
+		res.Skipped = n
+		rep.EngineError("real-process half stopped after %d hang-guard expiries: %d cases not run", hangs.Load(), n)
+	}
 	res.ErrorOutcomes = len(outcomes)
 	for o := range outcomes {
 		res.ErrorSamples = append(res.ErrorSamples, o)
@@ -541,4 +565,26 @@ func runReal(rep *ev.Reporter, thorough bool) realResult {
 		res.Samples = append(res.Samples, map[string]any{"half": "real", "family": c.Family, "api": c.API, "cancel": c.Cancel, "program": script.Args(c.Ops)})
 	}
 	return res
+}
+
+var stackDumped atomic.Bool
+
+// stacksOnce returns the goroutine stacks that mention package subprocess / os/exec, the first time it is called
+// (diagnosis of a hang; part of the ENGINE-ERROR text only).
+func stacksOnce() string {
+	if !stackDumped.CompareAndSwap(false, true) {
+		return ""
+	}
+	buf := make([]byte, 8<<20)
+	buf = buf[:runtime.Stack(buf, true)]
+	var keep []string
+	for _, g := range strings.Split(string(buf), "\n\n") {
+		if strings.Contains(g, "subprocess.") || strings.Contains(g, "os/exec.") {
+			keep = append(keep, g)
+		}
+		if len(keep) >= 12 {
+			break
+		}
+	}
+	return "\n" + strings.Join(keep, "\n\n")
 }
